@@ -272,7 +272,55 @@ def r6_concat(cx):
     cx.ob("R6", "R6/concat", ok, f, "concat: for every (uuid, reader) of every input: add_pack(uuid, reader.create_stream(0, reader.size())) then finalize")
 
 
+def r7_manifest_search_is_order_independent(cx):
+    """'re-assembled by concatenation in any order': the search for the manifest among the packs of a container visits
+    every pack until the manifest is found -- the only exits of the loop are exhaustion, an error, or `magic == Manifest`"""
+    F = cx.F
+    f = F.method("reader::container_pack::ContainerPack", "get_manifest_pack_reader")
+    b = F.body(f)
+    nx = b.calls(r"Iterator>::next$", r"DoubleEndedIterator>::next_back$")
+    if len(nx) != 1:
+        raise AnchorLost("get_manifest_pack_reader: expected one loop over the packs, found %d" % len(nx))
+    n = nx[0][0]
+    # the iterated collection: all packs of the container, no adapter that drops elements
+    adapters = [callee_str(t) for i, t in b.calls(r".") if re.search(r"::(skip|take|take_while|skip_while|filter|filter_map|step_by|find|position|last|nth|next|next_back|max|min|max_by_key|min_by_key)(::<.*>)?$", callee_str(t)) and i != n]
+    src_ok = any(("field", fld) in b.origins(t["args"][0]) for i, t in b.calls(r"IntoIterator>::into_iter$") for fld in ("packs", "packs_uuid"))
+    cx.ob("R7", "R7/manifest-search/over-all-packs", src_ok and not adapters, f,
+          "the loop iterates self.packs / self.packs_uuid with no element-dropping adapter (adapters: %s)" % adapters)
+    # the Manifest arm: switch on discr(<header>.magic) whose explicit value is PackKind::Manifest
+    man = next(v["discr"] for v in F.enum("PackKind")["variants"] if v["name"] == "Manifest")
+    arms = []
+    for i, blk in enumerate(b.blocks):
+        t = blk["t"]
+        if t["k"] == "switch" and not blk.get("cleanup"):
+            l = op_local(t["op"])
+            for d in b.defs().get(l, []):
+                if d[0] == "stmt" and d[3]["rv"]["k"] == "discr" and d[3]["rv"].get("of", "").endswith("PackKind"):
+                    for val, tgt in zip(t["vals"], t["targets"]):
+                        if val == man:
+                            arms.append(tgt)
+    if not arms:
+        raise AnchorLost("get_manifest_pack_reader: no switch on <header>.magic with the Manifest value")
+    avoid = {n} | b.error_blocks() | b.err_return_blocks() | set(arms)
+    # the match on the result of next(): its None arm leaves the loop legitimately (exhaustion)
+    disc = None
+    for x in b.succ[n]:
+        y = x
+        while b.blocks[y]["t"]["k"] == "goto":
+            y = b.succ[y][0]
+        if b.blocks[y]["t"]["k"] == "switch":
+            disc = y
+    if disc is None:
+        raise AnchorLost("get_manifest_pack_reader: no match on the result of next()")
+    t = b.blocks[disc]["t"]
+    some_tgts = [tgt for val, tgt in zip(t["vals"], t["targets"]) if val == 1]
+    escaped = [x for x in b.reachable(some_tgts, avoid=avoid) if b.blocks[x]["t"]["k"] == "return"]
+    cx.ob("R7", "R7/manifest-search/no-early-exit", bool(some_tgts) and not escaped, f,
+          "from the body of the loop over the packs, no path reaches the return without passing next(), an error exit or the `magic == Manifest` arm (a pack of another kind never ends the search)")
+
+
 RULES = [
+    ("R7", r7_manifest_search_is_order_independent, 2),
     ("R1", r1_chain, 6),
     ("R2", r2_whole_file, 4),
     ("R3", r3_tail_fallback, 3),
